@@ -13,6 +13,9 @@ from props import c08_blocks
 PRELUDE_SPEC = 'From V Require Import Base.Bits Spec.C08.\n'
 PRELUDE_BOTH = 'From V Require Import Base.Bits Spec.C08 Gen.WireOps Gen.Prims Model.StructLogic.\n'
 CHK = '''
+(* all input vectors over the given widths, in the order of itertools.product (first input varies slowest) *)
+Fixpoint enum (ws : list Z) : list (list Z) :=
+  match ws with [] => [[]] | w :: t => flat_map (fun v => map (cons v) (enum t)) (seqZ 0 (2 ^ w)) end.
 Fixpoint eqlZ (a b : list Z) : bool :=
   match a, b with [], [] => true | x :: a', y :: b' => (x =? y) && eqlZ a' b' | _, _ => false end.
 (* (index, spec output, model output) of the first cases whose implementation output differs from the spec / the model *)
@@ -73,8 +76,11 @@ def coq_compare(tag, groups, with_model):
     """groups: list of (blk, cfg, ins_list, outs).  One coqc call.  returns per group a list of (index, spec_out, model_out)."""
     body = [PRELUDE_BOTH if with_model else PRELUDE_SPEC, CHK]
     items = []
-    for g, (blk, cfg, ins_list, outs) in enumerate(groups):
-        cases = '[' + '; '.join('(%s, %s)' % (zlist(i), zlist(o)) for i, o in zip(ins_list, outs)) + ']'
+    for g, (blk, cfg, ins_list, outs, full) in enumerate(groups):
+        if full:      # full truth table: Coq enumerates the inputs itself, only the implementation outputs are written out
+            cases = '(combine (enum %s) [%s])' % (zlist(blk.in_widths(cfg)), '; '.join(zlist(o) for o in outs))
+        else:
+            cases = '[' + '; '.join('(%s, %s)' % (zlist(i), zlist(o)) for i, o in zip(ins_list, outs)) + ']'
         fs = blk.spec(cfg)
         fm = blk.model(cfg) if with_model else fs
         items.append(('g%d' % g, 'chk 0 %s %s %s 3' % (fs, fm, cases)))
@@ -97,7 +103,7 @@ def sweep(ctx, with_model, full_bits, n_random, only=None, tag='C08'):
         t0 = time.time()
         res = coq_compare('%s_b%d' % (tag, batch_no[0]), groups, with_model)
         batch_no[0] += 1
-        for (blk, cfg, ins_list, outs), bad in zip(groups, res):
+        for (blk, cfg, ins_list, outs, full), bad in zip(groups, res):
             for (k, so, mo) in bad:
                 rec = {'block': blk.name, 'config': cfg, 'inputs': ins_list[k], 'impl': outs[k]}
                 if so != outs[k]: spec_bad.append(dict(rec, spec=so))
@@ -119,8 +125,8 @@ def sweep(ctx, with_model, full_bits, n_random, only=None, tag='C08'):
             if blk.name in ('Mux', 'Comparator', 'PriorityEncoder') and len(ctx.cov['samples']) < 6 and sum(widths) > 3:
                 k = len(ins_list) // 3
                 ctx.sample({'block': blk.name, 'config': cfg, 'inputs': ins_list[k], 'impl_outputs': outs[k]})
-            groups.append((blk, cfg, ins_list, outs)); ncases += len(ins_list)
-            if ncases >= 12000: flush()
+            groups.append((blk, cfg, ins_list, outs, full)); ncases += len(ins_list)
+            if ncases >= 20000: flush()
     flush()
     return spec_bad, model_bad
 
